@@ -1,6 +1,38 @@
-(** C19 — placeholder: the codec theorems shared by the assembler properties are in Asm.v / props/C02.v. *)
-From Coq Require Import ZArith Lia.
+(** C19 — equivalent spellings of an assembly line assemble identically.  Property theorems only.
+    Proved here (the operand term algebra of the Intel parser, model Operand.v tied by exact-output correspondence):
+    numbers congruent modulo 2^32 normalise to the same operand value (16 / 0x10 / 0X10, -1 / 0xFFFFFFFF); every coefficient
+    (register, displacement, scale) of a sum, difference or constant multiple of operand dictionaries is the sum, difference or
+    multiple of the coefficients, hence the order of the terms inside a memory operand does not change the dictionary's
+    numeric content.  NOT proved: the lexers/grammars (PLY), the 'txt' order memo, the AT&T grammar and the path from the
+    dictionary to the candidate set; for those the candidate SETS of respelled lines are compared on the implementation
+    (harness/p_c19.py). *)
+From Coq Require Import ZArith List Bool.
+From Mx Require Import Operand OperandProofs.
+Import ListNotations.
 Open Scope Z_scope.
-Theorem C19_placeholder : forall v : Z, v mod 256 = v mod 256.
-Proof. reflexivity. Qed.
-Print Assumptions C19_placeholder.
+
+Theorem C19_number_spellings : forall n m, n mod 2 ^ 32 = m mod 2 ^ 32 -> norm32 n = norm32 m.
+Proof. exact norm32_congr. Qed.
+Print Assumptions C19_number_spellings.
+Theorem C19_number_value : forall n, (norm32 n) mod 2 ^ 32 = n mod 2 ^ 32 /\ - 2 ^ 31 <= norm32 n < 2 ^ 31.
+Proof. exact norm32_value. Qed.
+Print Assumptions C19_number_value.
+Theorem C19_sum_of_terms : forall a b k, NoDup (map fst b) -> coef (dict_add a b) k = coef a k + coef b k.
+Proof. exact dict_add_coef. Qed.
+Print Assumptions C19_sum_of_terms.
+Theorem C19_difference_of_terms : forall a b k, NoDup (map fst b) -> coef (dict_sub a b) k = coef a k - coef b k.
+Proof. exact dict_sub_coef. Qed.
+Print Assumptions C19_difference_of_terms.
+Theorem C19_scaled_term : forall c b k, coef (dict_scale c b) k = c * coef b k.
+Proof. exact dict_scale_coef. Qed.
+Print Assumptions C19_scaled_term.
+Theorem C19_term_order_irrelevant : forall a b k, NoDup (map fst a) -> NoDup (map fst b) -> coef (dict_add a b) k = coef (dict_add b a) k.
+Proof. exact dict_add_comm. Qed.
+Print Assumptions C19_term_order_irrelevant.
+
+(** non-vacuity: [ebx + esi*2 + 4] built in two orders (keys: 3 = ebx, 6 = esi, 1000 = displacement) *)
+Example C19_nonvacuous :
+  dict_add (dict_add [(3, 1)] (dict_scale 2 [(6, 1)])) [(1000, 4)] = [(3, 1); (6, 2); (1000, 4)] /\
+  dict_add (dict_add [(1000, 4)] (dict_scale 2 [(6, 1)])) [(3, 1)] = [(1000, 4); (6, 2); (3, 1)] /\
+  norm32 4294967295 = -1 /\ norm32 (-1) = -1 /\ dict_sub [(3, 1); (1000, 4)] [(1000, 4)] = [(3, 1)].
+Proof. vm_compute. repeat split; reflexivity. Qed.
